@@ -49,18 +49,18 @@ IsGtal(k) == k \in {"gtal", "gtalv"}
 \* element j of the operation holds v + j (growr, growi, gen) or v (all others)
 Inc(k) == IF k \in {"growr", "growi", "gen"} THEN 1 ELSE 0
 
-\* the operations of a record as a set of <<grower, position in its program>>
-OpIds(rec) == UNION {{<<t, i>> : i \in 1 .. Len(rec.thr[t].ops)} : t \in 1 .. Len(rec.thr)}
-OpAt(rec, id) == rec.thr[id[1]].ops[id[2]]
-
 \* number of elements the operation added: its argument, except for grow_to_at_least, whose
 \* amount (target - the size it loaded) is not returned to the caller: it is the number of slots
 \* that hold its tag (tags are unique per operation, TagsOK)
 Added(rec, o) ==
   IF IsGtal(OpK(o)) THEN Cardinality({i \in 1 .. Len(rec.data) : rec.data[i] = OpV(o)}) ELSE OpN(o)
 
-RECURSIVE SumOver(_, _)
-SumOver(f, S) == IF S = {} THEN 0 ELSE LET x == CHOOSE y \in S : TRUE IN f[x] + SumOver(f, S \ {x})
+\* sum of D[t][i] over the operations from <<t, i>> on (program order, grower by grower)
+RECURSIVE SumFrom(_, _, _)
+SumFrom(D, t, i) ==
+  IF t > Len(D) THEN 0
+  ELSE IF i > Len(D[t]) THEN SumFrom(D, t + 1, 1)
+  ELSE D[t][i] + SumFrom(D, t, i + 1)
 
 \* (a) Termination: every growth call returns (every spin on a bucket pointer ends, because the
 \*     owner of the bucket's trigger index publishes it).  The driver writes stuck = 1 if a round
@@ -85,9 +85,9 @@ InitialKept(rec) ==
 \*     j < 100, so no value is written by two operations (and none is an initial element's value).
 \*     This is a fact about the program the driver issued, not about the library.
 TagsOK(rec) ==
-  \A id \in OpIds(rec) :
-    LET o == OpAt(rec, id) IN
-    /\ OpV(o) = id[1] * 100000 + (id[2] - 1) * 100
+  \A t \in 1 .. Len(rec.thr) : \A i \in 1 .. Len(rec.thr[t].ops) :
+    LET o == rec.thr[t].ops[i] IN
+    /\ OpV(o) = t * 100000 + (i - 1) * 100
     /\ OpN(o) >= 0
     /\ (~IsGtal(OpK(o)) => OpN(o) < 100)
 
@@ -125,9 +125,9 @@ ProgramOrderOK(rec, D) ==
     \A i \in 1 .. Len(ops) :
       /\ OpS(ops[i]) <= rec.size
       /\ OpS(ops[i]) >= rec.n0
-      /\ (Grew(ops[i], D[<<t, i>>]) => OpS(ops[i]) >= OpP(ops[i]) + D[<<t, i>>])
+      /\ (Grew(ops[i], D[t][i]) => OpS(ops[i]) >= OpP(ops[i]) + D[t][i])
       /\ (i > 1 => /\ OpS(ops[i]) >= OpS(ops[i - 1])
-                   /\ (Grew(ops[i], D[<<t, i>>]) => OpP(ops[i]) >= OpS(ops[i - 1])))
+                   /\ (Grew(ops[i], D[t][i]) => OpP(ops[i]) >= OpS(ops[i - 1])))
 
 \* (i) AddrStable + NoLostNoOverwrite: every reference and every iterator taken earlier (by a grower
 \*     to the first and last element of each of its own completed ranges, by the reader to the
@@ -151,10 +151,12 @@ RecOK(rec) ==
     /\ ViewsAgree(rec)
     /\ InitialKept(rec)
     /\ TagsOK(rec)
-    /\ LET ids == OpIds(rec)
-           D == [id \in ids |-> Added(rec, OpAt(rec, id))]
-       IN /\ \A id \in ids : RangeOK(rec, OpAt(rec, id), D[id]) /\ GtalOK(rec, OpAt(rec, id), D[id])
-          /\ rec.size = rec.n0 + SumOver(D, ids)
+    /\ LET D == [t \in 1 .. Len(rec.thr) |->
+                  [i \in 1 .. Len(rec.thr[t].ops) |-> Added(rec, rec.thr[t].ops[i])]]
+       IN /\ \A t \in 1 .. Len(rec.thr) : \A i \in 1 .. Len(rec.thr[t].ops) :
+               /\ RangeOK(rec, rec.thr[t].ops[i], D[t][i])
+               /\ GtalOK(rec, rec.thr[t].ops[i], D[t][i])
+          /\ rec.size = rec.n0 + SumFrom(D, 1, 1)
           /\ ProgramOrderOK(rec, D)
     /\ RefsValid(rec)
     /\ LifetimesOK(rec)
